@@ -18,7 +18,7 @@ use ckb_types::{
     packed,
     prelude::*,
     utilities::merkle_mountain_range::VerifiableHeader,
-    U256,
+    H256, U256,
 };
 
 use ckb_systemtime::unix_time_as_millis;
@@ -335,9 +335,12 @@ impl LightClientProtocol {
     }
 
     /// Removes the matched blocks and the filtered data after the fork block.
-    fn rollback_to_fork_number(&self, to_number: BlockNumber) {
+    fn rollback_to_fork_number(
+        &self,
+        to_number: BlockNumber,
+        matched_blocks: &mut HashMap<H256, (bool, Option<packed::Block>)>,
+    ) {
         debug!("fork to number: {}", to_number);
-        let mut matched_blocks = self.peers.matched_blocks().write().expect("poisoned");
         let mut start_number_opt = None;
         while let Some((start_number, blocks_count, _)) = self.storage.get_latest_matched_blocks() {
             if start_number > to_number {
@@ -368,7 +371,12 @@ impl LightClientProtocol {
     ) -> Result<bool, Status> {
         let (old_total_difficulty, prev_last_header) = self.storage.get_last_state();
         let new_total_difficulty = new_prove_state.get_last_header().total_difficulty();
+        // The lock of the sync progress is held until the last state and the prove state are updated:
+        // between the rollback and these updates, the filter protocol would check block filters of
+        // the rolled back blocks against the block filter hashes of the abandoned chain.
+        let mut matched_blocks_guard = None;
         if new_total_difficulty > old_total_difficulty {
+            let mut matched_blocks = self.peers.matched_blocks().write().expect("poisoned");
             let reorg_last_headers = new_prove_state.get_reorg_last_headers();
             if reorg_last_headers.is_empty() {
                 let prev_last_header_number: BlockNumber = prev_last_header.raw().number().unpack();
@@ -387,7 +395,6 @@ impl LightClientProtocol {
                 // For safety, just remove the block#1.
                 if prev_last_header_number == 1 {
                     info!("rollback to block#1 since previous last header number is 1");
-                    let mut matched_blocks = self.peers.matched_blocks().write().expect("poisoned");
                     while let Some((start_number, _, _)) = self.storage.get_latest_matched_blocks()
                     {
                         if start_number > 0 {
@@ -410,7 +417,7 @@ impl LightClientProtocol {
                                 .map(|_| header.number())
                         });
                     if let Some(to_number) = fork_number {
-                        self.rollback_to_fork_number(to_number);
+                        self.rollback_to_fork_number(to_number, &mut matched_blocks);
                     } else {
                         warn!("long fork detected");
                         return Ok(false);
@@ -433,7 +440,7 @@ impl LightClientProtocol {
                         .unwrap_or_default()
                 });
                 if let Some(to_number) = fork_number {
-                    self.rollback_to_fork_number(to_number);
+                    self.rollback_to_fork_number(to_number, &mut matched_blocks);
                 } else {
                     warn!("long fork detected");
                     return Ok(false);
@@ -445,9 +452,11 @@ impl LightClientProtocol {
                 &new_prove_state.get_last_header().header().data(),
                 new_prove_state.get_last_headers(),
             );
+            matched_blocks_guard = Some(matched_blocks);
         }
         self.peers()
             .update_prove_state(peer_index, new_prove_state)?;
+        drop(matched_blocks_guard);
         Ok(true)
     }
 }
